@@ -1168,6 +1168,83 @@ def check_ci(ops: List[List[Any]]) -> Optional[C.Failing]:
     return None
 
 
+
+# ------------------------------------------------------------------------------- positional contract of ordered sets
+
+def list_contract_probe(case=None) -> List[C.Failing]:
+    """(round 8) The positional view of an ordered set is a list: `del value[i]` does what `del list[i]` does (negative indices
+    count from the end, an index out of range raises IndexError and changes nothing), and an `insert` whose position the list
+    refuses (a str, None, a float) is refused BEFORE the object is taken in.  Every length 0..4 x every index -len-2..len+1,
+    against a plain Python list of the same children."""
+    from basyx.aas import model
+    D = model.datatypes
+    out: List[C.Failing] = []
+    seen = set()
+
+    def mk(n):
+        return model.SubmodelElementList("l", model.Property, [model.Property(None, D.Int, k) for k in range(n)], value_type_list_element=D.Int)
+
+    def view(lst, extra=()):
+        v = lst.value
+        return [len(v), [id(x) for x in v], [x.parent is lst for x in list(v) + list(extra)], [x in v for x in list(v) + list(extra)]]
+
+    def add(f):
+        if f.sig not in seen:
+            seen.add(f.sig)
+            out.append(f)
+    todo = [case] if case else [["lc", "del", n, i] for n in range(5) for i in range(-n - 2, n + 2)] + \
+        [["lc", "insert", n, pos] for n in (0, 2) for pos in ("0", None, 1.5)]
+    for c in todo:
+        _, what, n, arg = c
+        lst = mk(n)
+        kids = list(lst.value)
+        if what == "del":
+            ref = list(kids)
+            try:
+                del ref[arg]
+                want = ref
+            except IndexError:
+                want = None
+            before = view(lst)
+            try:
+                del lst.value[arg]
+                got = list(lst.value)
+                err = None
+            except Exception as e:   # noqa
+                got, err = None, type(e).__name__
+            if want is None:
+                if err != "IndexError":
+                    add(C.Failing("ns:delItem:out-of-range:" + (err or "no-error"), f"del value[{arg}] on a list of {n}: a list raises IndexError, the set "
+                                  f"{'raised ' + err if err else 'returned'}", c, err, "IndexError"))
+                elif view(lst) != before:
+                    add(C.Failing("ns:delItem:out-of-range:changed", f"del value[{arg}] on a list of {n} raised IndexError but changed the set", c))
+            else:
+                if err is not None:
+                    add(C.Failing("ns:delItem:in-range:raises:" + err, f"del value[{arg}] on a list of {n} raised {err}", c, err, "removal"))
+                elif [id(x) for x in got] != [id(x) for x in want] or len(lst.value) != len(want):
+                    add(C.Failing("ns:delItem:in-range:wrong-children", f"del value[{arg}] on a list of {n} children left positions "
+                                  f"{[kids.index(x) for x in got]}, a list leaves {[kids.index(x) for x in want]}", c))
+                else:
+                    gone = [x for x in kids if x not in want]
+                    if any(x.parent is not None or x in lst.value for x in gone):
+                        add(C.Failing("ns:delItem:in-range:removed-still-linked", f"del value[{arg}] on a list of {n}: the removed child keeps its parent", c))
+        else:
+            x = model.Property(None, D.Int, 99)
+            before = view(lst, [x])
+            try:
+                lst.value.insert(arg, x)
+                err = None
+            except Exception as e:   # noqa
+                err = type(e).__name__
+            if err != "TypeError":
+                add(C.Failing("ns:insert:bad-position:" + (err or "accepted"), f"value.insert({arg!r}, x) {'raised ' + err if err else 'was accepted'}; "
+                              "a list raises TypeError", c, err, "TypeError"))
+            elif view(lst, [x]) != before:
+                add(C.Failing("ns:insert:bad-position:not-atomic", f"value.insert({arg!r}, x) raised TypeError but changed the set: "
+                              f"len()={len(lst.value)}, iteration yields {len(list(lst.value))}, x.parent set: {x.parent is lst}, x in value: {x in lst.value}", c))
+    return out
+
+
 def oracle(ctx: C.Ctx, cov: C.Coverage) -> List[C.Failing]:
     """The oracle watched every call of the correspondence run (same histories); when that run did not happen (driver
     broken) the histories are generated again here."""
@@ -1196,6 +1273,10 @@ def oracle(ctx: C.Ctx, cov: C.Coverage) -> List[C.Failing]:
             sigs.add(f.sig)
             f.case = ["ci", C.ddmin(f.case[1], lambda o, f=f: (lambda g: g is not None and g.sig == f.sig)(check_ci(o)))]
             out.append(f)
+    for f in list_contract_probe():
+        if f.sig not in sigs:
+            sigs.add(f.sig)
+            out.append(f)
     cov.extra["oracle_failures_seen"] = len(fails)
     return out
 
@@ -1223,6 +1304,8 @@ def search(ctx: C.Ctx, disagreements, broken) -> List[C.Failing]:
 
 
 def replay(case) -> Optional[C.Failing]:
+    if isinstance(case, list) and len(case) == 4 and case[0] == "lc":
+        return (list_contract_probe(case) or [None])[0]
     if isinstance(case, list) and len(case) == 2 and case[0] == "ci":
         return check_ci(case[1])
     return check_history(case)
